@@ -143,6 +143,11 @@ def mkfunc(name: str, args: list[str], body, stochastic: bool = False, ints: boo
         # the same scalar function written with a reduction over a small stacked vector: legal for lcm (model functions are
         # evaluated on scalars under vmap), but not broadcast-safe - calling it on whole columns gives one number
         code = f"def {name}({_sig(args, kwonly)}):\n    return jnp.array([{src(body[1], ints)}, {src(body[2], ints)}]).sum()\n"
+    if stacked and isinstance(body, list) and body and body[0] in ("or", "and"):
+        # a boolean function written with a reduction over a small stacked vector (`jnp.any(jnp.array([...]))`): correct
+        # for the scalars lcm evaluates model functions on, not for whole grids
+        red = "any" if body[0] == "or" else "all"
+        code = f"def {name}({_sig(args, kwonly)}):\n    return jnp.{red}(jnp.array([{src(body[1], ints)}, {src(body[2], ints)}]))\n"
     if (code, stochastic) in _FUNCS:
         return _FUNCS[(code, stochastic)]
     f = _mkfunc(I, name, code, stochastic)
